@@ -92,8 +92,8 @@ def run(rep):
             rc, out, e2, secs = native.run_replay(ID, "c16", [replay_arg])
             confirmed = rc not in (0,) and "overflowed its stack" in (e2 + out)
             rep.violation(obl, "Verus: %s\n%s" % (REC, err[-1500:]),
-                          witness="%s with 300000 rejected rows / escaped bytes on a 2 MiB stack (dev build)" % replay_arg,
-                          replay_text="./check C16 --replay <this file>   # replay_src/c16 %s 300000" % replay_arg, confirmed=confirmed)
+                          witness="%s with 200000 rejected rows / escaped bytes on a 2 MiB stack (dev build)" % replay_arg,
+                          replay_text="./check C16 --replay <this file>   # replay_src/c16 %s 200000" % replay_arg, confirmed=confirmed)
         else:
             why = res if isinstance(res, Exception) else "function %s did not verify: %s" % (fn_key, "\n".join(res["error_blocks"])[-600:])
             rep.undecided.append("%s: proof unavailable (%s) and the contract-free extraction is not recursive" % (name, str(why).replace("\n", " | ")[:700]))
